@@ -165,6 +165,33 @@ def property_checks(inp):
         f2 = numpy.abs(npr.normal(size=(ny, nx))) + 0.1; k2 = f2.copy()
         cen.centre_of_gravity(f2, threshold=inp["thr"]); cen.brightest_pixel(f2, inp["frac"]); cen.correlation_centroid(f2, f2, threshold=0.2); cen.quadCell(f2[:2, :2])
         A(("centroiders leave the single frame they are given untouched", 0.0 if numpy.array_equal(f2, k2) else 1.0, 0.0))
+        # one frame with a NaN / inf pixel, or vastly brighter / fainter than the others, does not change the centroids of the others
+        sb = numpy.abs(npr.normal(size=(4, ny, nx))) + 0.1
+        goodref = [cen.centre_of_gravity(f_.copy(), threshold=inp["thr"]) for f_ in sb]
+        worst_iso = 0.0
+        for spoil in ("nan", "inf", "bright", "faint"):
+            sv = sb.copy()
+            if spoil == "nan":
+                sv[1, 0, 0] = numpy.nan
+            elif spoil == "inf":
+                sv[1, 0, 0] = numpy.inf
+            elif spoil == "bright":
+                sv[1] *= 1e200
+            else:
+                sv[1] *= 1e-200
+            for thr_ in (0, inp["thr"]):
+                got_ = cen.centre_of_gravity(sv.copy(), threshold=thr_)
+                want_ = numpy.array([cen.centre_of_gravity(f_[None].copy(), threshold=thr_)[:, 0] for f_ in sv]).T
+                for kfr in (0, 2, 3):
+                    worst_iso = max(worst_iso, float(numpy.abs(got_[:, kfr] - want_[:, kfr]).max()) if numpy.all(numpy.isfinite(want_[:, kfr])) else 0.0)
+        A(("a NaN / inf / vastly brighter or fainter frame in a stack leaves the centroids of the other frames alone", worst_iso, 1e-9))
+        # a stack held in another memory order (column-major, swapped-axes view) is the same stack, threshold or not
+        worst_mo = 0.0
+        for sv in (numpy.asfortranarray(sb), numpy.ascontiguousarray(sb.swapaxes(-1, -2)).swapaxes(-1, -2), numpy.ascontiguousarray(sb.T).T):
+            for thr_ in (0, inp["thr"]):
+                worst_mo = max(worst_mo, nandiff(cen.centre_of_gravity(sv, threshold=thr_), cen.centre_of_gravity(sb.copy(), threshold=thr_)),
+                               nandiff(cen.brightest_pixel(sv, inp["frac"]), cen.brightest_pixel(sb.copy(), inp["frac"])))
+        A(("centroids of a stack do not depend on its memory order (with and without threshold)", worst_mo, 1e-12))
         # quad cell mirror
         q = numpy.abs(npr.normal(size=(2, 2)))
         A(("quad cell changes sign under mirroring", float(numpy.abs(cen.quadCell(q[:, ::-1].copy())[0] + cen.quadCell(q.copy())[0]) + numpy.abs(cen.quadCell(q[::-1].copy())[1] + cen.quadCell(q.copy())[1])), 1e-12))
